@@ -6,7 +6,7 @@
    2 -> rules13 silent?, rules 5 8 9 12 of Valid/Rules.v silent?, to_exec defined?, well_typed?,
         schema_ok?  (0/1 each; 2 = undefined) *)
 From GV Require Import Base.Prelude Lang.Ast Exec.Value Exec.Schema Exec.Spec Exec.Typing Exec.Wire
-  Valid.Rules Valid.RulesWire Valid.Rules13 Valid.ToExec.
+  Valid.StaticTyping Valid.Rules Valid.RulesWire Valid.Rules13 Valid.ToExec Valid.RulesLit Valid.RulesTyping.
 
 Definition to_dirtable (w : wtree) : list (str * list arg_def) :=
   map (fun e => (to_str (kid 0 e), map to_argdef (w_kids (kid 1 e)))) (w_kids w).
@@ -55,6 +55,28 @@ Definition run (inp : list N) : list N :=
        match to_exec no_float sel d with
        | Some x => b2n (well_typed (vs_s vs) x) | None => 2 end;
        b2n (schema_ok (vs_s vs));
+       (* hypotheses of the typing theorem on the schema; all rules it names silent (document with
+          exactly one operation); its conclusion (the clauses that do not concern merging) *)
+       b2n (schema_impl_ok (vs_s vs) && schema_inputs_ok (vs_s vs) && dirs_std vs);
+       (match to_exec no_float None d, rules13 vs d, rule_no_unused_fragments d with
+        | Some _, Some [], Some [] =>
+          b2n (is_nil (rule_unique_fragment_names d) && is_nil (rule_unique_variable_names d))
+        | _, _, _ => 0
+        end);
+       (match to_exec no_float None d with
+        | Some x =>
+          match root_type (vs_s vs) (d_kind x) with
+          | Some rt =>
+            if is_object (vs_s vs) rt then
+              b2n (vars_ok (vs_s vs) (d_vars x) && sstatic_list (vs_s vs) (d_vars x) rt (d_sels x)
+                   && forallb (sel_dirs_ok (vs_s vs) (d_vars x) []) (d_sels x)
+                   && frags_static (vs_s vs) (d_vars x) (d_frags x)
+                   && forallb (fun f => forallb (sel_dirs_ok (vs_s vs) (d_vars x) []) (fr_sels f)) (d_frags x))
+            else 2
+          | None => 2
+          end
+        | None => 2
+        end);
        (* VariablesInAllowedPosition errors that the specification's location-default rule does not have *)
        match rule_variables_in_allowed_position vs d, rule_varpos_gen true vs d with
        | Some a, Some b => N.of_nat (length a - length b)
